@@ -34,6 +34,15 @@ def validate_id(obj_id):
     return ""
 
 
+def sql_text_literal(value):
+    """
+    Contents of a '...' literal inside a statement handed to sqlalchemy.text():
+    quotes are doubled, and colons are escaped because text() would otherwise
+    read ":name" as a bound parameter (it turns "\\:" back into ":")
+    """
+    return value.replace("'", "''").replace(":", "\\:")
+
+
 def event_from_tuple(row):
     tags = row[4]
     if isinstance(tags, str):
@@ -611,13 +620,13 @@ class Subscription(BaseSubscription):
             for tagname, tags in filter_obj.tags:
                 pstr = []
                 for val in tags:
-                    val = val.replace("'", "''")
+                    val = sql_text_literal(val)
                     pstr.append(f"'{val}'")
                 if not pstr:
                     # query with empty list should be invalid
                     raise ValueError("tags")
                 pstr = ",".join(pstr)
-                tagname = tagname.replace("'", "''")
+                tagname = sql_text_literal(tagname)
                 subwhere.append(
                     f"id IN (SELECT id FROM tags WHERE name = '{tagname}' AND value IN ({pstr})) "
                 )
